@@ -9,6 +9,7 @@ verus! {
 
 global size_of usize == 8;
 
+//@include preamble/xbitstr_opaque.rs
 //@include preamble/state_types.rs
 //@include spec/machine.rs
 //@include spec/state_specs.rs
